@@ -348,6 +348,13 @@ async fn finish_tasks_on_server_lost(state: WorkerStateRef) {
     }
 }
 
+/// Verification hook: what `run_worker` does when the connection to the server is gone (the configured
+/// `on_server_lost` policy); the future ends when the worker may end.
+#[cfg(feature = "verif")]
+pub async fn verif_finish_tasks_on_server_lost(state: WorkerStateRef) {
+    finish_tasks_on_server_lost(state).await
+}
+
 async fn cancel_running_tasks_on_worker_end(state: WorkerStateRef) {
     let notify = {
         let mut state = state.get_mut();
